@@ -73,8 +73,24 @@ namespace rkcommon {
             // to a per-thread slot instead: this reclaims the task this thread
             // finished before (whose decrement has long happened, in program
             // order of this thread); the last one is reclaimed at thread exit.
-            static thread_local std::unique_ptr<Task> lastFinished;
-            lastFinished.reset(this);
+            // The slot is a plain pointer (trivially destructible), so it stays
+            // usable after this thread's thread_local destructors have run: at
+            // process exit the scheduler's static destructor still drains queued
+            // tasks on the main thread after them.
+            static thread_local Task *lastFinished = nullptr;
+            struct AtThreadExit
+            {
+              ~AtThreadExit()
+              {
+                delete lastFinished;
+                lastFinished = nullptr;
+              }
+            };
+            static thread_local AtThreadExit atThreadExit;
+            (void)atThreadExit;  // odr-use: constructed on the first call
+            Task *previous = lastFinished;
+            lastFinished   = this;
+            delete previous;
           }
         };
 
